@@ -339,6 +339,48 @@ fn replay(args: &Args) -> i32 {
     0
 }
 
+/// A lookup among 24 peers each of which answers with `per` fabricated nodes (distinct public addresses nobody listens at, random
+/// ids, the last one the bitwise complement of the target). Afterwards another call is made. -> (panicked, calls done, alive)
+fn chatty(seed: u64, per: usize) -> (bool, bool, bool) {
+    let mut sim = Sim::new(seed, NetCfg { lat_min_ms: 2, lat_max_ms: 8, ..Default::default() });
+    let mut rng = Rng::new(seed ^ 0xC4A7);
+    let ids: Vec<[u8; 20]> = (0..24).map(|_| rng.id()).collect();
+    let target = rng.id();
+    let mut far = target;
+    for x in far.iter_mut() {
+        *x = !*x;
+    }
+    let policy: Policy = Box::new(move |me, m, w| {
+        let q = m.q.clone().unwrap_or_default();
+        if m.target() != Some(target) || !(q == "find_node" || q == "get" || q == "get_peers") {
+            return Reply::Default;
+        }
+        let mut listed: Vec<([u8; 20], SocketAddrV4)> = vec![];
+        for k in 0..per {
+            let serial = me.idx * 100 + k;
+            let mut id = crypto::sha1(&[(serial >> 8) as u8, serial as u8, 9]);
+            if k + 1 == per {
+                id = far;
+                id[19] ^= me.idx as u8; // distinct ids, all as far as it gets
+            }
+            listed.push((id, SocketAddrV4::new(Ipv4Addr::new(60 + (serial / 250) as u8, 7, 7, (serial % 250) as u8 + 1), 6881)));
+        }
+        Reply::One(lookup_reply(&krpc::compact_nodes(&listed), me, m, w, &[], q != "find_node"), 5 + me.idx as u64)
+    });
+    let net = FakeNet::install(&mut sim, &ids, policy);
+    let c = sim.add_node(NodeOpts::client(private_ip(9), &net.bootstrap()));
+    sim.run_for(2500);
+    let mut c1 = sim.call_get(c, GetKind::Peers, target, "chatty");
+    sim.poke(c);
+    let d1 = sim.run_calls(&mut [&mut c1], 60_000);
+    let mut c2 = sim.call_get(c, GetKind::FindNode, rng.id(), "after");
+    sim.poke(c);
+    let d2 = sim.run_calls(&mut [&mut c2], 30_000);
+    let r = (sim.nodes[c].panicked, d1 && d2, sim.nodes[c].alive);
+    sim.shutdown();
+    r
+}
+
 pub fn run(args: &Args) -> i32 {
     if args.get("replay-mode").is_some() {
         return replay(args);
@@ -460,6 +502,13 @@ pub fn run(args: &Args) -> i32 {
             n += 1;
         }
         out.line(&json!({"e":"shape","id":n,"mode":"reply_timing_summary","count":seqs.len(),"panic":false,"alive_after":true,"call_done":true}));
+    }
+    // chatty responders: every answer to a lookup lists as many (fabricated, unreachable) nodes as fit in a datagram, the last of
+    // them as far from the target as an id can be; one lookup collects well over a thousand candidates
+    for (i, per) in (if thorough { vec![20usize, 50, 60, 70, 75] } else { vec![50usize, 75] }).iter().enumerate() {
+        let (panicked, done, alive) = chatty(seed ^ (i as u64 * 57 + 3), *per);
+        out.line(&json!({"e":"shape","id":n,"mode":"chatty_responders","per_answer":per,"panic":panicked,"alive_after":alive,"call_done":done}));
+        n += 1;
     }
     api_errors(&mut out, seed, &mut n);
     // pure random datagrams
